@@ -158,4 +158,18 @@ PROPS = {
                              r"C1d\.dr_exp_sparse\.block_equals_dense", r"SE2d\.d2r_exp\.pattern_superset"]},
         "assumptions": ["dense routines (judged by C03-C05) are the reference for the values", "verdict covers only the executions sampled"],
     },
+    "C16": {
+        "units": [{"name": "c16_a", "src": "harness/c16.cpp", "defs": ["-DTS=0"], "flavor": "asan", "shards": {"quick": 8, "thorough": 16}},
+                  {"name": "c16_b", "src": "harness/c16.cpp", "defs": ["-DTS=1"], "flavor": "asan", "shards": {"quick": 8, "thorough": 16}}],
+        "rule": "cases = (coefficients, buffer offset, operation history) per group type (7 double, 5 float, 2 Bundles): views placed at EVERY scalar-aligned "
+                "offset of a 64-byte line inside a sentinel arena whose surroundings are ASan-poisoned; const ops compared value/Map/const-Map; random "
+                "histories of 3..10 mutating calls (*=, +=, setIdentity, setRandom, =value/=Map/=const Map, coeffs()=, writes through so2()/so3()/r2()/"
+                "r3()/r3_v()/r3_p()/r1_t()/r3<k>()/part<i>()) replayed on a plain value; const views on PROT_READ pages flush against PROT_NONE pages; "
+                "distinct = distinct (coefficients, offset); all non-trivial",
+        "floors": {"min_evaluations": {"quick": 100000, "thorough": 2000000},
+                   "cells": [r"SE3d\.writes_only_own_range\.so3\*=", r"Galileif\.writes_only_own_range\.r1_t", r"B<SE2d,R2d,SO3d>\.writes_only_own_range\.part<1>=",
+                             r"SE_3_3f\.writes_only_own_range\.r3<1>", r"SE2f\.readonly_pages\.same_results\|flush_end", r"SO3f\.compose\.constmap\|offset=15"]},
+        "assumptions": ["ASan shadow granularity is 8 bytes: single-float neighbours of a view are covered by the sentinel comparison and the page monitor instead",
+                        "verdict covers only the executions sampled"],
+    },
 }
